@@ -38,6 +38,8 @@ type Config struct {
 	Witnesses       int
 	Gen             bool
 	NoCache         bool
+	NoSleepSets     bool
+	ResetTerms      int
 	Params          map[string]int
 }
 
